@@ -532,6 +532,46 @@ func appendVarInt(b []byte, v int) []byte {
 
 var farFuture = time.Date(9000, 1, 1, 0, 0, 0, 0, time.UTC)
 
+// judgeReplay is the history part of the forgery family: with the harness key installed as the
+// trusted key a GENUINE (key, signature) pair is verified first; the same signature presented with
+// any other key, and the same pair after the trusted key has been restored, are forgeries and must
+// be refused (a verification result remembered per signature would accept them).
+func judgeReplay() {
+	old := user.VerifSetMojangKey(&fam.other.PublicKey)
+	defer user.VerifSetMojangKey(old)
+	keyIn := fam.keyInputs["harness-der"]
+	sig := sigBytes("harness-der", "other-key-sig", fam.k)
+	c := Case{Part: "sig", Entry: "VerifySignature", KeyKind: "harness-der", Content: "replay-of-genuine-signature", SigLen: fam.k}
+	var genuine bool
+	if _, _, p := engine.Guard(func() { genuine = user.VerifySignature(append([]byte(nil), keyIn...), append([]byte(nil), sig...)) }); p || !genuine {
+		rep.Count("replay_part_skipped_genuine_pair_not_accepted", 1)
+		return
+	}
+	rep.Eval(1)
+	for _, kind := range []string{"empty", "garbage"} {
+		var accepted bool
+		engine.Guard(func() { accepted = user.VerifySignature(append([]byte(nil), fam.keyInputs[kind]...), append([]byte(nil), sig...)) })
+		rep.Eval(1)
+		if accepted {
+			fail("sig/VerifySignature/forgery-accepted/genuine-signature-replayed-with-another-key", fam.k, c, "a signature that verified for its own key was then accepted for the %s key input", kind)
+		}
+	}
+	pk := user.PublicKey{ExpiresAt: farFuture, PubKey: old, Signature: append([]byte(nil), sig...)}
+	var accepted bool
+	engine.Guard(func() { accepted = pk.Verify() })
+	rep.Eval(1)
+	if accepted {
+		fail("sig/PublicKey.Verify/forgery-accepted/genuine-signature-replayed-with-another-key", fam.k, c, "a signature that verified for its own key was then accepted for a different public key")
+	}
+	user.VerifSetMojangKey(old)
+	engine.Guard(func() { accepted = user.VerifySignature(append([]byte(nil), keyIn...), append([]byte(nil), sig...)) })
+	rep.Eval(1)
+	if accepted {
+		fail("sig/VerifySignature/forgery-accepted/remembered-after-trusted-key-changed", fam.k, c, "a pair verified under another trusted key is still accepted under the services key")
+	}
+	rep.Count("replay_cases", 4)
+}
+
 func judgeSig(c Case) {
 	sig := sigBytes(c.KeyKind, c.Content, c.SigLen)
 	keyIn := fam.keyInputs[c.KeyKind]
@@ -949,6 +989,7 @@ func main() {
 		}
 	}
 	engine.ParallelFor(len(sigs), func(_, i int) { judgeSig(sigs[i]) })
+	judgeReplay()
 	judgeExpired()
 	rep.Count("forgeries", int64(len(sigs)+1))
 	states += int64(len(sigs) + 1)
